@@ -191,7 +191,7 @@ Proof.
   assert (Hloop : forall s1 done fits v1,
      (if is_reclaim k
       then let '(s1, done, avail, v) := evict_loop_rec eps s p (future_idle n) vs (at_order a) [] in
-           (s1, done, less_equal eps (t_init p) avail DZero, v)
+           (s1, done, less_equal eps (t_init p) avail DZero && queue_allocatable E s1 pq p, v)
       else let '(s1, done, v) := evict_loop_pre eps E s pq p (at_node a) vs (at_order a) [] in
            (s1, done, preemptor_fits eps E s1 pq p (at_node a), v)) = (s1, done, fits, v1) ->
      (forall c, c ∈ done -> c ∈ vs) /\
